@@ -872,6 +872,10 @@ class Interp:
                 return LazyIter(lambda: itertools.repeat(x), 'repeat')
             if isinstance(args[1], int):
                 return [x] * args[1]
+        if d in ('builtins.zip', 'itertools.chain', 'builtins.enumerate', 'builtins.list', 'builtins.tuple', 'builtins.reversed') \
+                and args and any(isinstance(a, Obj) for a in args):
+            # an instance of an analysed class (a list subclass, a class with __iter__) is iterated by the interpreter
+            args = [list(self.iterate(a)) if isinstance(a, Obj) else a for a in args]
         if d in ('builtins.zip', 'itertools.chain') and not kwargs and any(is_abstract(a) for a in args):
             if all(hasattr(a, 'abs_iter') or not is_abstract(a) for a in args):
                 its = list(args)
@@ -1793,8 +1797,26 @@ class Interp:
     def ex_SetComp(self, e, frame):
         cats = _is_unicode_category_comp(e, lambda x: self.eval(x, frame))
         if cats is not None:
+            if self._spent_generator(e.generators[0].iter, frame):
+                return set()        # a one-shot generator that an earlier statement of the module has already run through
             return UnicodeCategorySet(cats)
         return set(self.ex_ListComp(e, frame))
+
+    def _spent_generator(self, it, frame):
+        """`it` names a module-level generator expression and this is not the first place of the module (in source
+        order) that iterates it: a generator yields its items once."""
+        if not isinstance(it, ast.Name):
+            return False
+        ref = self.model.resolve(frame.modname, it.id)
+        if not isinstance(ref, ValueRef) or ref.owner is not None or len(ref.exprs) != 1 \
+                or not isinstance(ref.exprs[0], ast.GeneratorExp):
+            return False
+        u = self.model.units.get(ref.modname)
+        if u is None or ref.modname != frame.modname:
+            return False
+        uses = [n for n in ast.walk(u.tree) if isinstance(n, ast.Name) and n.id == it.id and isinstance(n.ctx, ast.Load)]
+        first = min(uses, key=lambda n: (n.lineno, n.col_offset)) if uses else None
+        return first is not None and first is not it and (first.lineno, first.col_offset) != (it.lineno, it.col_offset)
 
     def ex_DictComp(self, e, frame):
         out = {}
